@@ -127,7 +127,8 @@ impl<'a> TypingContext<'a> {
     &self,
     identifier: PStr,
   ) -> Option<&NominalType> {
-    self.available_type_parameters.iter().find(|it| it.name == identifier).unwrap().bound.as_ref()
+    // The name may not be in scope when the program has errors (e.g. after parser recovery).
+    self.available_type_parameters.iter().find(|it| it.name == identifier)?.bound.as_ref()
   }
 
   pub(crate) fn nominal_type_upper_bound(&'a self, type_: &'a Type) -> Option<&'a NominalType> {
